@@ -67,9 +67,14 @@ impl<Tz> vstd::std_specs::cmp::PartialOrdSpecImpl for DateTime<Tz> {
         else { Some(core::cmp::Ordering::Greater) }
     }
 }
+/// "now": the moment of the call, one value per verified function (an idealisation: no contract compares two readings of the
+/// clock); the system clock is past 1970 and far inside chrono's range
+pub uninterp spec fn the_clock() -> int;
 impl Utc {
     #[verifier::external_body]
-    pub fn now() -> (r: DateTime<Utc>) { unimplemented!() }
+    pub fn now() -> (r: DateTime<Utc>)
+        ensures r.t == the_clock(), 0 <= the_clock() < 8_000_000_000_000_000_000_000
+    { unimplemented!() }
 }
 
 // ---- A3: TaskMap = HashMap<String, String> -- a finite map from strings to strings -----------------
@@ -202,6 +207,17 @@ pub fn vec_extend<T>(v: &mut Vec<T>, other: Vec<T>)
 pub fn drain_all<T>(v: &mut Vec<T>) -> (r: Vec<T>)
     ensures r@ == old(v)@, final(v)@ == Seq::<T>::empty()
 { v.drain(..).collect() }
+
+/// rule R5 with `drain=drain_hashmap`: `m.drain()` on a std HashMap consumed by a loop: every entry once, in unspecified order
+pub open spec fn hash_drained<K, V>(old: Map<K, V>, r: Seq<(K, V)>) -> bool {
+    &&& forall|i: int| 0 <= i < r.len() ==> old.dom().contains((#[trigger] r[i]).0) && old[r[i].0] == r[i].1
+    &&& forall|k: K| old.dom().contains(k) ==> exists|i: int| 0 <= i < r.len() && (#[trigger] r[i]).0 == k
+    &&& forall|i: int, j: int| 0 <= i < j < r.len() ==> (#[trigger] r[i]).0 != (#[trigger] r[j]).0
+}
+#[verifier::external_body]
+pub fn drain_hashmap<K, V>(m: &mut std::collections::HashMap<K, V>) -> (r: Vec<(K, V)>)
+    ensures hash_drained(old(m)@, r@), final(m)@ == Map::<K, V>::empty()
+{ m.drain().collect() }
 
 pub mod anyhow {
     #[allow(unused_imports)]
